@@ -516,7 +516,9 @@ impl ParsedValue {
             )?;
         }
 
-        let value = value.populate(args, foreign_key_path, target_locale, key_path)?;
+        // a literal count picks the plural form with the rules of the locale being resolved,
+        // the ones the generated code uses for that locale (also when the target is defaulted to another locale).
+        let value = value.populate(args, foreign_key_path, top_locale, key_path)?;
 
         let _ = std::mem::replace(foreign_key, ForeignKey::Set(Box::new(value)));
 
